@@ -59,4 +59,24 @@ def holdsUdp (c : UdpSpecCase) (o : UdpObs) : Bool :=
   (!(ds.all wfDgram) || o.tun == encodeAll ds) &&
   (!(c.ttail == .hold && c.junk.isEmpty && c.tds.all wfDgram) || o.nread == (dgramsOf c.uevs).length)
 
+/-! ### SOCKS5 UDP tunnel codec -/
+
+/-- Datagrams `SendPacket`/`ReceivePacket` can carry: up to 65535 bytes (empty ones included). -/
+def wfS5 (d : Bytes) : Bool := decide (d.length ≤ 65535)
+
+/-- Where `ReceivePacket` must fail when the stream `encodeAll ds` ends at byte offset `cut`:
+in the prefix read (at a record boundary or inside a prefix) or in the payload read. -/
+def cutStage : List Bytes → Nat → S5Stop
+  | [], _ => .len
+  | d :: ds, cut =>
+    if 2 + d.length ≤ cut then cutStage ds (cut - (2 + d.length))
+    else if cut < 2 then .len else .data
+
+/-- The bytes `SendPacket` put on the tunnel are the encoding of the datagrams; the receive loop
+returned exactly the datagrams complete before the cut, in order, with their boundaries — however
+the stream was cut into reads, in particular with several records in one read — and then failed in
+the read the cut falls into. -/
+def holdsS5 (ds : List Bytes) (cut : Nat) (wire : Bytes) (o : S5Obs) : Bool :=
+  !(ds.all wfS5) || (wire == encodeAll ds && o.pk == completeBefore ds cut && o.stop == cutStage ds cut)
+
 end Tunnox.C12
